@@ -1930,9 +1930,23 @@ def run_C14(ctx):
     cases = []
     fragile = 0
     for _ in range(ctx.n(560)):
-        stress = rng.random() < 0.6
-        res.dist["dilution:budget-stress" if stress else "dilution:general"] += 1
-        if stress:
+        u = rng.random()
+        stress = u < 0.5
+        coarse = 0.5 <= u < 0.7
+        res.dist["dilution:budget-stress" if stress else "dilution:coarse-stock" if coarse else "dilution:general"] += 1
+        if coarse:
+            # coarse stock phase: the stock is 100-200x more concentrated than the highest target, so the first column
+            # takes 1-2 µL of stock and its achieved concentration is rounded well below the ideal one; a later, SMALLER
+            # column then needs slightly more than its own vmax from it (v <= vmax of the target must refuse that)
+            R = rng.choice([4, 8, 8])
+            C = rng.choice([3, 4, 6, 8])
+            stock = F(rng.choice([100, 200, 1000]))
+            xmax = stock / rng.choice([100, 200, 150])
+            xmin = xmax / rng.choice([4, 10, 20])
+            mode = rng.choice(["log", "linear"])
+            vmax = [F(rng.choice([200, 300, 150]))] + [F(rng.choice([100, 50]))] * (C - 1)
+            minT = F(1)
+        elif stress:
             # budget stress: several later columns compete for one source column and the rows of a column need
             # clearly different volumes (linear spacing), so that the per-well budget of a source is what decides
             R = rng.choice([2, 3, 4, 8])
